@@ -215,7 +215,7 @@ func (g *GG) Script() *Script {
 
 // ---- layouts
 
-var sepPool = []string{" ", " ", " ", "", "", "  ", "\t", "\n", "\n", "\r\n", "\n\n  ", " \t ", "// line comment\n", "//\n", "// é 日本 🙂 \"q\" */ /*\n",
+var sepPool = []string{" ", " ", " ", "", "", "  ", "\t", "\n", "\n", "\r\n", "\r", " \r ", "\r\r\n", "// ended by a lone CR\r", "/* a\rb */", "\n\n  ", " \t ", "// line comment\n", "//\n", "// é 日本 🙂 \"q\" */ /*\n",
 	"/* block */", "/**/", " /* multi\nline */ ", "/* é🙂 */", "/* a /* nested */ b */", "/* // not a line comment */", "\n// c1\n// c2\n", " /* x */ /* y */ "}
 
 // RandomLayout draws a list of separators; ListLayout replaces those that would change
